@@ -89,6 +89,8 @@ def run(ctx):
     run_cases(ctx, cases, "c03")
     evaluate(ctx, cases, CLASSES, {"type": "invalid", "null-allowed": "valid", "valid": "valid"}, "JSON types")
     from vlib.valuecheck import replay_findings
+    from vlib import regress
+    regress.search(ctx, {"C03"})          # the shape-agnostic search step (DESIGN.md 12.8)
     replay_findings(ctx)
     ctx.cov["rule"] = ("systematic: 7 leaf kinds x 12 positions (required, optional, nullable, array item at depth 1 and 2, definition, nested object, map value, map of references, "
                        "typed additional property, array of references), each position given one value of every other JSON type, 1.5 for integer, and null; "
